@@ -7,6 +7,7 @@ MechanicActor (external) / DriverActor / TrackPreparationActor / TaskExecutionAc
 Oracle: invariants over what race control observes (exception type of race(), virtual time of the reply, race store / results
 store / summary recorder, Success messages).
 """
+import hashlib
 import json
 
 from hypothesis import strategies as st
@@ -126,7 +127,12 @@ def _case(draw):
     elif kind == "param-source":
         fault = {"kind": "param-source", "task": leaf["name"], "client": client, "ordinal": ordinal,
                  "where": draw(st.sampled_from(["params", "params", "partition"])), "exc": draw(_EXC)}
-        if leaf["mode"] == "iterations" and not leaf.get("completes_parent") and draw(st.booleans()):
+        # (decided by a hashed ticket: drawn directly, the combination "fails in params()" + "its source ends the task" never came up in
+        # 800 cases - Hypothesis does not draw independent uniform values)
+        ticket = int(hashlib.sha256(str(draw(st.integers(0, 2**32))).encode()).hexdigest(), 16)
+        if leaf["mode"] == "iterations" and not leaf.get("completes_parent") and ticket % 2 == 0:
+            if ticket % 8 != 0:
+                fault["where"] = "params"
             # the failing source is one that decides itself when the task ends (like the bulk source: neither iterations nor a time period;
             # the schedule runs until params() raises StopIteration) and fails before it is exhausted
             leaf.pop("iterations", None)
